@@ -97,8 +97,10 @@ def _data(case):
 
 def _inputs(case):
     kind = case.get("kind", "list")
-    yt = gen.wrap_vector(case.get("yt_kind", kind), case["y_true"], case.get("index", "default"))
-    yp = gen.wrap_vector(case.get("yp_kind", kind), case["y_pred"], case.get("index2", "default"))
+    # the binary labels are 0/1 or (coding "m11") -1/+1: 1 is the positive class in both, as documented
+    enc = (lambda v: [x if x == 1 else -1 for x in v]) if case.get("coding") == "m11" else (lambda v: v)
+    yt = gen.wrap_vector(case.get("yt_kind", kind), enc(case["y_true"]), case.get("index", "default"))
+    yp = gen.wrap_vector(case.get("yp_kind", kind), enc(case["y_pred"]), case.get("index2", "default"))
     sf = gen.wrap_vector(case.get("sf_kind", "list"), case["groups"], case.get("index3", "default"), name="sf")
     kw = {"sensitive_features": sf}
     if case.get("w") is not None:
@@ -197,14 +199,18 @@ def check_named(case):
     # the same argument objects after an in-place update of the predictions: results follow the current contents
     if case.get("mutate") and n >= 1:
         flipped = [1 - int(v) for v in case["y_pred"]]
+        flipped_enc = [x if x == 1 else -1 for x in flipped] if case.get("coding") == "m11" else flipped
         if isinstance(Yp, list):
-            Yp[:] = flipped
+            Yp[:] = flipped_enc
         elif isinstance(Yp, np.ndarray):
-            Yp[...] = np.asarray(flipped).reshape(Yp.shape)
+            if Yp.flags.writeable:
+                Yp[...] = np.asarray(flipped_enc).reshape(Yp.shape)
+            else:
+                Yp = np.asarray(flipped_enc).reshape(Yp.shape)
         elif isinstance(Yp, pd.Series):
-            Yp.iloc[:] = flipped
+            Yp.iloc[:] = flipped_enc
         else:
-            Yp.iloc[:, 0] = flipped
+            Yp.iloc[:, 0] = flipped_enc
         yp2 = np.asarray(flipped)
         per2 = {k: _rates(yt, yp2, wv, m) for k, m in masks.items()}
         ov2 = _rates(yt, yp2, wv, allm)
@@ -232,6 +238,8 @@ def check_named(case):
         tags.add("nt")
     if len(per) >= 2:
         tags.add("groups>=2")
+    if case.get("coding") == "m11":
+        tags.add("coding_-1/+1")
     sizes = [int(m.sum()) for m in masks.values()]
     if case.get("w") is not None:
         tags.add("weighted")
@@ -475,12 +483,14 @@ def _dataset(draw, max_n=14):
         "w_kind": draw(st.sampled_from(["list", "ndarray", "series"])),
         "index": draw(gen.index_plan), "index2": draw(gen.index_plan), "index3": draw(gen.index_plan),
         "mutate": draw(st.booleans()),
+        "coding": draw(st.sampled_from(["01", "01", "m11"])),
     }
 
 
 @st.composite
 def _generated_case(draw):
     c = draw(_dataset())
+    c["coding"] = "01"  # the sklearn-derived references below work on the 0/1 values
     c["fn"] = list(draw(st.sampled_from(SK_GENERATED)))
     c["method"] = draw(st.sampled_from(["between_groups", "to_overall"]))
     c["prior_call"] = draw(st.booleans())
@@ -492,6 +502,7 @@ def _generated_case(draw):
 def _derived_case(draw):
     c = draw(_dataset())
     n = len(c["y_true"])
+    c["coding"] = "01"
     c["metric"] = draw(st.sampled_from(["scaled", "extra"]))
     c["transform"] = draw(st.sampled_from(["difference", "ratio", "group_min", "group_max"]))
     c["method"] = draw(st.sampled_from(["between_groups", "to_overall"]))
